@@ -341,6 +341,9 @@ def _ops_of(stmts, payload_var: str, where: str) -> list[str]:
                 and all(isinstance(b, (ast.Assign, ast.Expr, ast.Raise)) for b in st.body) \
                 and not any(isinstance(b, ast.Raise) for b in st.body[:-1]):
             ops.append(".assertValid")
+        elif isinstance(st, ast.Assert) and _norm(st.test) == "signature_valid":
+            # an assert statement is not executed under python -O / PYTHONOPTIMIZE: translated (the guard rejects it)
+            ops.append(".assertDebug")
         elif s == LOOKUP:
             ops.append(".lookupPeer")
         elif isinstance(st, ast.Assign) and _norm(st.targets[0]) == "peer" and isinstance(st.value, ast.BoolOp) \
